@@ -7,7 +7,7 @@ import os
 import sys
 import warnings
 
-REPO = os.path.abspath(os.environ.get("PVM_REPO", "/repo"))
+REPO = os.path.abspath((os.environ.get("PVM_REPO") or "/repo"))
 VERIF = os.path.abspath(os.path.join(os.path.dirname(__file__), ".."))
 if sys.path[0] != REPO:
     sys.path.insert(0, REPO)
